@@ -310,6 +310,11 @@ func runC16(w *c16World) ([]string, error) {
 			pipes[0].WaitWrites(7*(j+1)-14, bound)
 		}
 	}
+	if srActive && w.manySenders > 0 {
+		pipes[0].WaitWrites(7*w.manySenders, bound) // the fleet's answers are out before the next senders speak
+	}
+	dueReq := make([]int, len(pipes))
+	dueReq[0] = 7 * w.manySenders
 	for r := 0; r < maxRepeat; r++ {
 		for _, h := range w.sources {
 			if r >= h.repeat {
@@ -323,6 +328,12 @@ func runC16(w *c16World) ([]string, error) {
 			f.Checksum = f.ChecksumFor(hbLay.CRCExtra)
 			pipes[h.ch].Feed(f.Bytes())
 			if h.autopilot == 3 {
+				if !ardu[key{h.ch, h.sys, h.comp}] && srActive {
+					// seven answers per new sender go through the channel's 64-place queue: at most three senders'
+					// worth are outstanding at any time, however slowly the machine lets the writer run
+					dueReq[h.ch] += 7
+					pipes[h.ch].WaitWrites(dueReq[h.ch]-21, bound)
+				}
 				ardu[key{h.ch, h.sys, h.comp}] = true
 			}
 			if k < w.others {
